@@ -63,6 +63,14 @@ def _vec(args):
                 v = fn(y, p, sample_weight=[s * x for x in w])
                 if not _eq(v, a):
                     out.append(({"fn": fname, "kind": "scale"}, f"{fname}: weights x{s} give {v!r}, unscaled {a!r}", detail))
+            if key in ("sel", "mean"):
+                # omitting the weights == all-ones weights, whatever dtype the predictions are stored with
+                for dt in (bool, np.uint8):
+                    pb = np.array(p).astype(dt)
+                    v0 = fn(y, pb); v1 = fn(y, pb, sample_weight=[1] * len(p)); v2 = fn(y, p)
+                    nev += 1
+                    if not (_eq(v0, v1) and _eq(v0, v2)):
+                        out.append(({"fn": fname, "kind": "ones", "dtype": np.dtype(dt).name}, f"{fname} on {np.dtype(dt).name} predictions: no weights {v0!r}, all-ones {v1!r}, int predictions {v2!r}", detail))
             if all(x == 1 for x in w):
                 nev += 1
                 v = fn(y, p)
